@@ -500,3 +500,117 @@ def parse_pub_area(b):
             ps = " ".join(["ECC", fw.ws(q.symmetric.name), fw.ws(q.scheme.name), fw.ws(q.curve_id.name), fw.ws(q.kdf.name)])
         return " ".join([fw.ws(p.type.name), fw.ws(p.name_alg.name), attrs, fw.wb(p.auth_policy), ps, fw.wb(p.unique.value)])
     return outcome(lambda: f(b), pr)
+
+
+
+# ---------- the same call in other admissible Python shapes (used round-robin by authrun / regrun.run_case) ----------
+class _S(str):
+    pass
+
+
+class _UserMap:
+    """a hand-written collections.abc.Mapping"""
+    def __init__(self, d): self._d = dict(d)
+    def __getitem__(self, k): return self._d[k]
+    def __iter__(self): return iter(self._d)
+    def __len__(self): return len(self._d)
+    def get(self, k, default=None): return self._d.get(k, default)
+    def keys(self): return self._d.keys()
+    def items(self): return self._d.items()
+    def values(self): return self._d.values()
+    def __contains__(self, k): return k in self._d
+    def __bool__(self): return bool(self._d)
+
+
+try:
+    import collections.abc as _abc
+    _abc.Mapping.register(_UserMap)
+except Exception:
+    pass
+
+
+def _strided(b):
+    return memoryview(bytes(y for x in bytes(b) for y in (x, 0x5A)))[::2]
+
+
+def _reversed_view(b):
+    return memoryview(bytes(b)[::-1])[::-1]
+
+
+def _retype_strs(v, f):
+    if isinstance(v, str):
+        return f(v)
+    if isinstance(v, list):
+        return [_retype_strs(x, f) for x in v]
+    if isinstance(v, tuple):
+        return tuple(_retype_strs(x, f) for x in v)
+    return v
+
+
+def equivalent_auth_calls(pol, a):
+    """-> [(name, thunk)]: the same authentication call with its arguments in other shapes that denote the same values"""
+    import webauthn, decimal, fractions
+    from webauthn.helpers.structs import AuthenticationCredential, AuthenticatorAssertionResponse
+    out = []
+
+    def rec(w, typ=None):
+        kw = {} if typ is None else {"type": typ}
+        return AuthenticationCredential(id=a.id_text, raw_id=a.cred_id, response=AuthenticatorAssertionResponse(
+            client_data_json=w(a.cdj), authenticator_data=w(a.ad), signature=w(a.sig), user_handle=a.user_handle), **kw)
+
+    def call(cred, **over):
+        kw = pol.kwargs()
+        kw.update(over)
+        return outcome(lambda: webauthn.verify_authentication_response(credential=cred, **kw), pr_verified_auth)
+    if a.typ == "public-key":
+        out.append(("record with strided (non-contiguous) memoryviews", lambda: call(rec(_strided), expected_challenge=_strided(pol.challenge), credential_public_key=_strided(pol.pubkey))))
+        out.append(("record with reversed-stride memoryviews", lambda: call(rec(_reversed_view), expected_challenge=_reversed_view(pol.challenge))))
+        out.append(("record with bytearrays", lambda: call(rec(bytearray), expected_challenge=bytearray(pol.challenge), credential_public_key=bytearray(pol.pubkey))))
+        out.append(("record whose type is the plain string", lambda: call(rec(bytes, typ="public-key"))))
+    d = lambda: a.as_dict()
+    out.append(("expectations as str subclasses", lambda: call(d(), expected_rp_id=_S(pol.rp_id), expected_origin=_retype_strs(pol.origin, _S))))
+    if not isinstance(pol.origin, str):
+        out.append(("expected origins as a tuple", lambda: call(d(), expected_origin=tuple(pol.origin))))
+    out.append(("stored counter as a Decimal", lambda: call(d(), credential_current_sign_count=decimal.Decimal(pol.count))))
+    out.append(("stored counter as a Fraction", lambda: call(d(), credential_current_sign_count=fractions.Fraction(pol.count))))
+    out.append(("stored counter as a float", lambda: call(d(), credential_current_sign_count=float(pol.count))))
+    out.append(("stored counter as an int subclass", lambda: call(d(), credential_current_sign_count=type("Count", (int,), {})(pol.count))))
+    return out
+
+
+def equivalent_reg_calls(pol, reg):
+    import webauthn, types, collections
+    from webauthn.helpers.structs import RegistrationCredential, AuthenticatorAttestationResponse
+    out = []
+
+    def rec(w, typ=None):
+        kw = {} if typ is None else {"type": typ}
+        return RegistrationCredential(id=reg.id_text, raw_id=reg.cred_id, response=AuthenticatorAttestationResponse(client_data_json=w(reg.cdj), attestation_object=w(reg.att_obj)), **kw)
+
+    def call(cred, **over):
+        kw = pol.kwargs()
+        for k, v in over.items():
+            kw[k] = v(kw[k]) if callable(v) and k in kw else v
+        with substituted(pol.substitute, pol.now):
+            return outcome(lambda: webauthn.verify_registration_response(credential=cred, **kw), pr_verified_reg)
+    if reg.typ == "public-key":
+        out.append(("record with strided (non-contiguous) memoryviews", lambda: call(rec(_strided), expected_challenge=_strided(pol.challenge))))
+        out.append(("record with reversed-stride memoryviews", lambda: call(rec(_reversed_view))))
+        out.append(("record with bytearrays", lambda: call(rec(bytearray), expected_challenge=bytearray(pol.challenge))))
+        out.append(("record whose type is the plain string", lambda: call(rec(bytes, typ="public-key"))))
+    d = lambda: reg.as_dict()
+    out.append(("expectations as str subclasses", lambda: call(d(), expected_rp_id=_S(pol.rp_id), expected_origin=_retype_strs(pol.origin, _S))))
+    if not isinstance(pol.origin, str):
+        out.append(("expected origins as a tuple", lambda: call(d(), expected_origin=tuple(pol.origin))))
+    if pol.algs is not None:
+        out.append(("allowed algorithms as a tuple of plain integers", lambda: call(d(), supported_pub_key_algs=lambda l: tuple(int(x) for x in l))))
+        out.append(("allowed algorithms as a one-shot iterator", lambda: call(d(), supported_pub_key_algs=lambda l: iter(list(l)))))
+        out.append(("allowed algorithms as a generator", lambda: call(d(), supported_pub_key_algs=lambda l: (x for x in list(l)))))
+        out.append(("allowed algorithms as a set", lambda: call(d(), supported_pub_key_algs=lambda l: set(l))))
+    if pol.roots:
+        out.append(("roots in a read-only mapping proxy", lambda: call(d(), pem_root_certs_bytes_by_fmt=lambda m: types.MappingProxyType(dict(m)))))
+        out.append(("roots in a ChainMap", lambda: call(d(), pem_root_certs_bytes_by_fmt=lambda m: collections.ChainMap({}, dict(m)))))
+        out.append(("roots in a UserDict", lambda: call(d(), pem_root_certs_bytes_by_fmt=lambda m: collections.UserDict(dict(m)))))
+        out.append(("roots in a hand-written Mapping", lambda: call(d(), pem_root_certs_bytes_by_fmt=lambda m: _UserMap(m))))
+        out.append(("roots as tuples in an OrderedDict", lambda: call(d(), pem_root_certs_bytes_by_fmt=lambda m: collections.OrderedDict((k, tuple(v)) for k, v in m.items()))))
+    return out
